@@ -228,6 +228,8 @@ class Rec:
         return d
 
     def log(self, a, **kw):
+        if REC is not self:
+            return None
         self.progress += 1
         line = {'a': a, 't': self.now(), 'tk': self.task_label()}
         line.update(kw)
@@ -344,8 +346,7 @@ def make_sync_handler(rec, hdef, bus):
                 k = op[0]
                 if k == 'd':
                     c = rec.new_event(op[2], **_opts(rec, op, kids))
-                    kids.append(c)
-                    _do_dispatch(rec, ('A', act), rec.buses[op[1]], c)
+                    kids.append(c if _do_dispatch(rec, ('A', act), rec.buses[op[1]], c) else None)
                 elif k == 'rd':
                     _do_dispatch(rec, ('A', act), rec.buses[op[1]], event)
                 elif k == 'rb':
@@ -414,12 +415,11 @@ def make_async_handler(rec, hdef, bus):
                 k = op[0]
                 if k == 'd':
                     c = rec.new_event(op[2], **_opts(rec, op, kids))
-                    kids.append(c)
-                    _do_dispatch(rec, ('A', act), rec.buses[op[1]], c)
+                    kids.append(c if _do_dispatch(rec, ('A', act), rec.buses[op[1]], c) else None)
                 elif k == 'rd':
                     _do_dispatch(rec, ('A', act), rec.buses[op[1]], event)
                 elif k == 'a':
-                    if op[1] < len(kids):
+                    if op[1] < len(kids) and kids[op[1]] is not None:
                         c = kids[op[1]]
                         rec.open[act]['aw'] = rec.eid(c)
                         rec.log('AwB', act=act, e=rec.eid(c))
@@ -502,11 +502,14 @@ async def driver(rec, i, ops, state):
                 kw.update(op[4])
             c = rec.new_event(op[2], **kw)
             roots.append(c)
-            _do_dispatch(rec, ('D', i), rec.buses[op[1]], c)
+            if not _do_dispatch(rec, ('D', i), rec.buses[op[1]], c):
+                state.setdefault('rejected', set()).add(id(c))
         elif k == 'rd':  # dispatch an existing root again (same object)
             _do_dispatch(rec, ('D', i), rec.buses[op[1]], roots[op[2]])
         elif k == 'a':
             c = roots[op[1]]
+            if id(c) in state.get('rejected', ()):
+                continue
             rec.log('XAwB', d=i, e=rec.eid(c))
             exc = ''
             r = None
@@ -515,7 +518,7 @@ async def driver(rec, i, ops, state):
             except asyncio.CancelledError:
                 raise
             except BaseException as ex:  # noqa
-                if isinstance(ex, vloop.LoopAbort):
+                if isinstance(ex, (vloop.LoopAbort, GeneratorExit, KeyboardInterrupt, SystemExit)):
                     raise
                 exc = type(ex).__name__
             rec.log('XAwE', d=i, e=rec.eid(c), same=r is c, exc=exc)
@@ -541,7 +544,7 @@ async def driver(rec, i, ops, state):
             except asyncio.CancelledError:
                 raise
             except BaseException as ex:  # noqa
-                if isinstance(ex, vloop.LoopAbort):
+                if isinstance(ex, (vloop.LoopAbort, GeneratorExit, KeyboardInterrupt, SystemExit)):
                     raise
                 exc = type(ex).__name__
             finally:
@@ -560,7 +563,7 @@ async def driver(rec, i, ops, state):
             except asyncio.CancelledError:
                 raise
             except BaseException as ex:  # noqa
-                if isinstance(ex, vloop.LoopAbort):
+                if isinstance(ex, (vloop.LoopAbort, GeneratorExit, KeyboardInterrupt, SystemExit)):
                     raise
                 exc = type(ex).__name__
             finally:
@@ -594,7 +597,7 @@ async def driver(rec, i, ops, state):
                 rec.log('ExpE', d=i, x=xid, b=b.name, e=0, err='Cancelled')
                 raise
             except BaseException as ex:  # noqa
-                if isinstance(ex, vloop.LoopAbort):
+                if isinstance(ex, (vloop.LoopAbort, GeneratorExit, KeyboardInterrupt, SystemExit)):
                     raise
                 err = 'Timeout' if isinstance(ex, TimeoutError) else type(ex).__name__
             finally:
@@ -627,7 +630,7 @@ async def call_accessor(rec, ev, name, flags):
     except asyncio.CancelledError:
         raise
     except BaseException as ex:  # noqa
-        if isinstance(ex, vloop.LoopAbort):
+        if isinstance(ex, (vloop.LoopAbort, GeneratorExit, KeyboardInterrupt, SystemExit)):
             raise
         return {'k': 'raise', 'v': rec.err_kind(ex)}
 
